@@ -389,8 +389,11 @@ pub fn check_faulted(scn: &Scenario, o0: &Outcome, o: &Outcome) -> Option<Violat
             None
         }
         Fault::Hard(_) | Fault::TargetIsDir | Fault::TargetDevFull | Fault::SourceIsDir(_) | Fault::NonUtf8(_) | Fault::MalformedBase | Fault::Flip { .. } => {
+            // with two faults in a plan only a *hard* component that fired makes failure mandatory
+            let fired_hard = o.trace.iter().any(|l| l.contains("-> fault") || l.contains("EIO") || l.contains("ENOSPC") || l.contains("EISDIR"));
             let reached = match &scn.fault {
-                Fault::Hard(_) | Fault::Flip { .. } => fired,
+                Fault::Hard(_) => fired_hard,
+                Fault::Flip { .. } => fired,
                 // kernel-level faults on the target are only met by accepted sources
                 Fault::TargetIsDir | Fault::TargetDevFull => accepted,
                 Fault::MalformedBase => accepted && scn.with_base,
@@ -408,8 +411,9 @@ pub fn check_faulted(scn: &Scenario, o0: &Outcome, o: &Outcome) -> Option<Violat
             if !accepted && !target_untouched(scn, o) && !matches!(scn.fault, Fault::TargetIsDir | Fault::TargetDevFull) {
                 return v("target-touched-on-source-error", format!("rejected sources under {:?}: target modified", scn.fault));
             }
-            if !reached && o.exit == Some(0) && o.target != o0.target {
-                return v("unfired-fault-changes-target", format!("{:?}", scn.fault));
+            if !reached && (o.exit != o0.exit || (o.exit == Some(0) && o.target != o0.target)) && matches!(scn.fault, Fault::Hard(_)) {
+                // only benign components (if any) fired: they must be absorbed
+                return v("benign-fault-changes-outcome", format!("exit {:?} (fault-free {:?}) under {:?}; trace {:?}", o.exit, o0.exit, scn.fault, o.trace));
             }
             None
         }
@@ -814,6 +818,18 @@ pub fn run(seed: u64, run: u64) -> Report {
     // fault-free first: its trace tells where faults can land
     let o0 = execute(&c, &world, &scn);
     scn.fault = gen_fault(&scn, &o0, &mut fr);
+    if fr.chance(1, 4) {
+        // two faults in one run: both must be absorbed if both are benign; any hard one decides
+        let second = gen_fault(&scn, &o0, &mut fr);
+        scn.fault = match (scn.fault.clone(), second) {
+            (Fault::Benign(a), Fault::Benign(b)) => Fault::Benign(format!("{a};{b}")),
+            (Fault::Benign(a), Fault::Hard(b)) | (Fault::Hard(a), Fault::Benign(b)) | (Fault::Hard(a), Fault::Hard(b)) => Fault::Hard(format!("{a};{b}")),
+            (f, _) => f,
+        };
+        if matches!(&scn.fault, Fault::Benign(p) | Fault::Hard(p) if p.contains(';')) {
+            probes.push("two_faults_in_one_run".into());
+        }
+    }
     let chk = run_scenario(&c, &world, &scn);
     let mut fault_kinds = Vec::new();
     if let (Some(k), Some(o1)) = (fault_kind(&scn.fault), &chk.o1) {
